@@ -170,4 +170,31 @@ theorem markTcpSeen_syn_full (w : World) (k : Key) (wd fr : Bool) (a : CtArgs) (
   simp only [if_true]
   exact createConn_full _ _ _ _ _ h
 
+theorem createConn_result (w : World) (k : Key) (ns cs : ConnState) (udp : Bool) (pid : Nat)
+    (h : (createConn w k ns udp pid).2 = some cs) : cs = ns := by
+  unfold createConn at h
+  cases hx : aupdate w.connCap (aerase w.conn k) k ns with
+  | some c => rw [hx] at h; injection h with h; exact h.symm
+  | none =>
+    rw [hx] at h
+    cases udp <;> simp at h
+
+/-- the entry `mark_udp_seen` (called without routing arguments, not from the WAN side) returns for
+a flow that holds no decision: still without decision, not WAN-originated -/
+theorem markUdpSeen_result_untracked (w : World) (k : Key) (a : CtArgs) (ha : a.rt = none)
+    (hnew : ∀ cs, udpLive w k = some cs → cs.hasRouting = 0 ∧ cs.wanDir = false)
+    (cs : ConnState) (hm : (markUdpSeen w k false a).2 = some cs) : cs.wanDir = false ∧ cs.hasRouting = 0 := by
+  cases hl : udpLive w k with
+  | none =>
+    unfold markUdpSeen at hm
+    rw [hl] at hm
+    have := createConn_result _ _ _ _ _ _ hm
+    rw [this]
+    unfold newConnState; rw [ha]; exact ⟨rfl, rfl⟩
+  | some cs0 =>
+    rw [markUdpSeen_live w k false a cs0 hl] at hm
+    injection hm with hm
+    obtain ⟨t, hte⟩ := touchUdp_eq cs0 w.now a ha
+    rw [← hm, hte]; exact ⟨(hnew cs0 hl).2, (hnew cs0 hl).1⟩
+
 end DaeVerif.C03
